@@ -302,6 +302,41 @@ def run(ctx):
         for oname, what in compare(out0, out1, c, 1e-6):
             ctx.violation('scale/%s/%s' % (name, oname), '%s, output %s: %s' % (name, oname, what), rep)
 
+    # ---------------- large orders (a third of the record) at the ends of the amplitude range: overflow / underflow of products
+    BIG = ['arburg', 'aryule', 'arcovar', 'modcovar', 'minvar', 'music', 'ev']
+    for it in range(ctx.q(2, 8) * len(BIG)):
+        name = BIG[it % len(BIG)]; cplx = bool((it // len(BIG)) % 2)
+        N = int(rng.integers(200, 241))
+        x, kind = E.gen_data(rng, N, cplx, 'tone')
+        big = int(rng.integers(N // 3, N // 3 + 20)) if name in ('music', 'ev', 'arburg', 'aryule') else int(rng.integers(30, 45))
+        if name in ('music', 'ev'):
+            cfg = {'IP': big, 'NFFT': 256, 'criteria': str(rng.choice(['aic', 'mdl']))}
+        elif name == 'minvar':
+            cfg = {'order': big, 'NFFT': 256}
+        elif name == 'arburg':
+            cfg = {'order': big, 'criteria': None}
+        else:
+            cfg = {'order': big}
+        mag = [1e3, 1e-3][(it // (2 * len(BIG))) % 2]
+        c = mag * (np.exp(1j * rng.uniform(0, 2 * np.pi)) if cplx else 1.0)
+        tag = 'complex' if cplx else 'real'
+        ctx.count('search/function-large-order/%s/%s' % (name, tag))
+        ctx.case(('fnbig', name, json.dumps(jcfg(cfg), sort_keys=True), x.tobytes(), str(c)), nontrivial=True,
+                 sample={'estimator': name, 'cfg': jcfg(cfg), 'N': N, 'datatype': tag, 'c': str(c)})
+        rep = {'form': 'function', 'estimator': name, 'cfg': jcfg(cfg), 'x': vlib.hexv(np.asarray(x, dtype=complex)), 'datatype': tag,
+               'c': [float(np.real(c)).hex(), float(np.imag(c)).hex()]}
+        try:
+            out0 = fn_outputs(name, x, cfg)
+        except Exception:
+            ctx.count('search/function-large-order/%s/unscaled-raised' % name); continue
+        try:
+            out1 = fn_outputs(name, c * x, cfg)
+        except Exception as e:
+            ctx.violation('scale/%s/raises' % name, '%s raises %s: %s on c*x although it returns on x' % (name, type(e).__name__, str(e)[:80]), rep)
+            continue
+        for oname, what in compare(out0, out1, c, 1e-5):
+            ctx.violation('scale/%s/%s' % (name, oname), '%s (order %d), output %s: %s' % (name, big, oname, what), rep)
+
     # ---------------- every PSD class
     nextreme = 2 * len(E.CLASSES)
     for it in range(nextreme + ctx.q(96, 960)):
